@@ -714,6 +714,28 @@ func TestVerifC22(t *testing.T) {
 		}
 		bMu.Unlock()
 	})
+	// Wide ranges (skipped above because every port of a range is installed separately): the full range and its neighbours,
+	// once each, probed at both ends, at port 0 and with non-first fragments — "1-65535" is not "any" (any also admits
+	// fragments and port 0).
+	wide := []string{"1-65535", "2-65535", "1-65534", "1024-65535", "1-1023", "0-65535", "32768-65535", "1-32768"}
+	var wideJudged int64
+	for _, s := range wide {
+		if stop() {
+			done3 = false
+			break
+		}
+		p := c22RefPort(s)
+		rule := c16Rule{Incoming: true, Proto: "tcp", PortKind: p.Kind, Lo: p.Lo, Hi: p.Hi, Host: "any"}.prep()
+		raw := map[string]any{"firewall": map[string]any{"inbound": []any{map[string]any{"port": s, "proto": "tcp", "host": "any"}}}}
+		pp := pb
+		pp.Ports = [][2]uint16{{0, 7}, {1, 7}, {2, 7}, {1023, 7}, {1024, 7}, {32767, 7}, {32768, 7}, {32769, 7}, {65534, 7}, {65535, 7}, {7, 0}, {7, 65535}}
+		h.run(c22Case{Text: "port: " + c22Q(s) + "  # (wide range; proto tcp, host any, inbound)", Raw: raw, Inbound: true, Status: p.Status, Unspec: p.Unspec,
+			Classes: []string{"port " + p.Class + " (wide)"}, Rules: []c16Rule{rule}}, pp)
+		if p.Status != c22Reject && !p.Unspec {
+			wideJudged++
+		}
+	}
+	c.Set("wide_port_ranges_judged", wideJudged)
 	if !(done1 && done2 && done3) {
 		c.Capped("stopped early (time budget or too many violations)")
 	}
